@@ -116,6 +116,8 @@ func cmdRun(args []string) int {
 
 	agg := &BatchResult{Skipped: map[string]int64{}, ViolByCode: map[string]int64{}, Counters: map[string]int64{}, Maxes: map[string]int64{}, Recorded: map[string][]string{}}
 	var allViol []ViolationRec
+	var unrecorded int64
+	knownHits := map[string]int64{}
 	var allInconcl []ViolationRec
 	var ntFiles []string
 	var raceReports []string
@@ -221,12 +223,20 @@ func cmdRun(args []string) int {
 		}
 		if o.res != nil {
 			mergeResult(agg, o.res)
+			for k, v := range o.res.KnownHits {
+				knownHits[k] += v
+			}
 			s := &sums[o.job.segIndex]
 			s.Cases += o.res.Cases
 			s.NonTrivial += o.res.NonTrivial
 			s.Violations += o.res.NViolations
 			s.Inconclusive += o.res.NInconcl
 			allViol = append(allViol, o.res.Violations...)
+			if extra := o.res.NViolations - int64(len(o.res.Violations)); extra > 0 {
+				// more violating cases in one batch than a worker records: they cannot be
+				// attributed to a known finding, so they count as new
+				unrecorded += extra
+			}
 			allInconcl = append(allInconcl, o.res.Inconclusive...)
 			continue
 		}
@@ -296,26 +306,22 @@ func cmdRun(args []string) int {
 		known *KnownFinding
 	}
 	var classified []outViol
-	knownHits := map[string]int64{}
 	knownWitnessSeen := map[string]bool{}
 	for _, v := range allViol {
 		var hit *KnownFinding
-		for i := range known {
-			kf := &known[i]
-			if kf.Status != "known" || !kf.hasProperty(cf.property) || kf.Code != v.Code {
-				continue
+		if v.KnownID != "" {
+			for i := range known {
+				if known[i].ID == v.KnownID {
+					hit = &known[i]
+				}
 			}
-			trig := mon.Triggers[kf.Trigger]
-			if trig == nil {
-				continue
-			}
-			if trig(v.minInput()) {
-				hit = kf
-				break
+		} else if v.Gen != "race-detector" {
+			hit = matchKnown(known, cf.property, v.Code, v.minInput())
+			if hit != nil {
+				knownHits[hit.ID]++
 			}
 		}
 		if hit != nil {
-			knownHits[hit.ID]++
 			if v.Gen == "directed" && strings.Contains(v.Note, "finding "+hit.ID+":") {
 				knownWitnessSeen[hit.ID] = true
 			}
@@ -373,6 +379,14 @@ func cmdRun(args []string) int {
 			fmt.Fprintf(&sb, "%s\t%s\t%s\t%s\t%s\n", k, cv.rec.Code, cv.rec.Gen, cv.rec.Quoted, strings.ReplaceAll(pickMsg(cv.rec), "\n", " | "))
 		}
 		os.WriteFile(dump, []byte(sb.String()), 0o644)
+	}
+
+	if unrecorded > 0 {
+		fmt.Printf("  %d further violating cases were counted but not recorded (more than 400 in one batch); they count as unlisted violations\n", unrecorded)
+		if newViolations == 0 {
+			fmt.Printf("VIOLATION property=%s replay=%s\n", cf.property, "evidence/"+cf.property+".json")
+		}
+		newViolations += int(unrecorded)
 	}
 
 	// coverage gates
